@@ -142,7 +142,10 @@ Inductive stmt :=
 | AssertBase                              (* if base_dir is not None: assert os.path.exists(base_dir) *)
 | Mkdtemp                                 (* tmpdir_path = mkdtemp(dir=base_dir) — may fail *)
 | CopyIn (fns : list string)              (* for filename in filenames_to_copy: move/copy — each may fail *)
-| CopyBack (kept : list string)           (* for filename in os.listdir(tmpdir_path): if kept: shutil.copy(filename, here) *)
+| CopyBack (abs : bool) (kept : list string)
+      (* for filename in os.listdir(tmpdir_path): if kept: shutil.copy(SRC, here)   with
+         SRC = filename (abs = false: resolved against the CURRENT directory) or
+         SRC = os.path.join(tmpdir_path, filename) (abs = true) *)
 | Rmtree (v : pvar)                       (* shutil.rmtree(v) *)
 | SaveEnv (vars : list (string * string)) (* prev_vals = [os.getenv(name, None) for ...] *)
 | SetEnv (vars : list (string * string))  (* for env_var in env_vars: os.environ[name] = new_val *)
@@ -177,15 +180,17 @@ Definition kept_candidates (kept : list string) (tmp : path) (fs : list path) : 
   flat_map (fun q => match child_name tmp q with
                      | Some n => if kept_name kept n then [n] else []
                      | None => [] end) fs.
-(* utils.py:314-317 — NB `shutil.copy(filename, here)` resolves filename against the CURRENT cwd *)
-Fixpoint do_copy_back (cands : list string) (here : path) (s : state) : outcome * state :=
+(* utils.py:314-317 — src = None: the bare file name is resolved against the CURRENT cwd *)
+Definition src_dir (src : option path) (s : state) : path :=
+  match src with Some p => p | None => cwd s end.
+Fixpoint do_copy_back (cands : list string) (src : option path) (here : path) (s : state) : outcome * state :=
   match cands with
   | [] => (Ok, s)
   | n :: r =>
       let '(flt, s1) := pop_fault s in
       if flt then (Raise (EFault FCopy), s1)
-      else if negb (mem_path (cwd s1 ++ [n]) (files s1)) then (Raise ENoSource, s1)
-      else do_copy_back r here (set_files s1 (add_path (here ++ [n]) (files s1)))
+      else if negb (mem_path (src_dir src s1 ++ [n]) (files s1)) then (Raise ENoSource, s1)
+      else do_copy_back r src here (set_files s1 (add_path (here ++ [n]) (files s1)))
   end.
 
 Definition do_set_env (vars : list (string * string)) (e : envt) : envt :=
@@ -269,9 +274,10 @@ Fixpoint exec (t : stmt) (f : frame) (s : state) : outcome * frame * state :=
       end
   | CopyIn fns =>
       with_var f VTmp s (fun tmp => let '(o, s1) := do_copy_in fns tmp s in (o, f, s1))
-  | CopyBack kept =>
+  | CopyBack abs kept =>
       with_var f VTmp s (fun tmp => with_var f VHere s (fun h =>
-        let '(o, s1) := do_copy_back (kept_candidates kept tmp (files s)) h s in (o, f, s1)))
+        let '(o, s1) := do_copy_back (kept_candidates kept tmp (files s)) (if abs then Some tmp else None) h s in
+        (o, f, s1)))
   | Rmtree v =>
       with_var f v s (fun p =>
         (Ok, f, set_files (set_dirs s (remove_tree p (dirs s))) (remove_tree p (files s))))
